@@ -2672,3 +2672,101 @@ def rule_quorem_correction(col, facts):
             ok = taken == {"Equal", "Greater"}
     col.check(R, "large_quorem:correct-unless-less", n == 1 and ok,
               "the quotient correction is not taken exactly when compare(x, y) != Less: a remainder equal to the divisor is left uncorrected (radix 3 `1121202011211211122211100012101120` = 2^53 + 1 rounds up instead of to even)", f.loc())
+
+
+def rule_nearest_shorter_left_endpoint(col, facts):
+    """MPT-endpoint (Dragonbox, exact powers of two): below a power of two the rounding interval is only a quarter
+    ulp wide, so the nearest shorter candidate can fall below the left endpoint `xi`; the algorithm then steps
+    the significand up by one.  That correction - an increment of the significand control-dependent on
+    `significand < xi` - must be present: without it 2^89 prints as a decimal that parses to its predecessor."""
+    if facts.config.startswith("compact"):
+        return
+    R = "MPT-endpoint"
+    f = facts.fn(WF + "algorithm::compute_nearest_shorter")
+    ok = False
+    for i, b in enumerate(f.blocks):
+        if not f.live(i):
+            continue
+        for st in b["s"]:
+            if st[0] == "=" and st[2][0] == "bin" and st[2][1].startswith("Add") and strip_casts(op_expr(f, st[2][3])) == ("k", 1):
+                for _d, e, p in path_conditions(f, i):
+                    e = strip_casts(e)
+                    if e[0] == "bin" and ((e[1] == "Lt" and p is True) or (e[1] == "Ge" and p is False)) and "xi" in show(e[3]) and strip_casts(e[2]) == strip_casts(op_expr(f, st[2][2])):
+                        ok = True
+    col.check(R, "compute_nearest_shorter:step-up-below-left-endpoint", ok,
+              "no increment of the significand under `significand < xi`: a candidate below the left endpoint of the (narrow) interval of a power of two is kept, the output parses to the predecessor float (2^89 -> 6.189700196426901e26)", f.loc())
+
+
+def rule_grisu_mul_rounds(col, facts):
+    """UNIT-round (Grisu): Grisu2's one-unit safety margin assumes every 64x64->64 product is within half a unit:
+    compact::mul must round the discarded low half to nearest, i.e. add 2^31 to the middle sum before it is
+    shifted out.  Truncating makes the scaled lower boundary up to a unit too low and a digit string outside the
+    interval is accepted (about 1 f64 in 230 000 no longer round-trips)."""
+    if not facts.config.startswith("compact"):
+        return
+    R = "UNIT-round"
+    f = facts.fn(WF + "compact::mul")
+    ok = False
+    for i, b in enumerate(f.blocks):
+        if not f.live(i):
+            continue
+        for st in b["s"]:
+            if st[0] == "=" and st[2][0] == "bin" and st[2][1].startswith("Add"):
+                for side in (st[2][2], st[2][3]):
+                    try:
+                        v = fold(f, side)
+                    except Exception:
+                        v = None
+                    if v == 1 << 31:
+                        ok = True
+    col.check(R, "compact::mul:round-half-up", ok,
+              "the middle partial sum is shifted out without adding 2^31 first: the product is truncated, not rounded, which Grisu's boundary margin does not allow for", f.loc())
+
+
+def rule_radix_delta_positive(col, facts):
+    """MPT-delta (generic-radix writer): the digit loop stops when `delta >= fraction`; delta is half the spacing
+    to the next float, which underflows to zero for subnormals and the lowest binade.  It must therefore be
+    clamped to the smallest positive float (a definition through `max_finite`/`max` of `next_positive(ZERO)`)
+    before the loop - otherwise the loop runs off the end of the 2200-byte scratch buffer."""
+    if "radix" not in facts.config:
+        return
+    R = "MPT-delta"
+    f = facts.fn(WF + "radix::write_float")
+    ok = False
+    for bb, c, a, d, t in f.calls():
+        if last_seg(callee_name(c)) in ("max_finite", "max", "maximum"):
+            es = [op_expr(f, x) for x in a]
+            if any(any(last_seg(c_[1]) == "next_positive" for c_ in expr_calls(e)) for e in es):
+                ok = True
+    col.check(R, "radix::write_float:delta-clamped", ok,
+              "delta (half the distance to the next float) is not clamped to the smallest positive float: for subnormals it is 0, `delta >= fraction` never holds and the digit loop overruns the scratch buffer (panic with a 256-byte caller buffer)", f.loc())
+
+
+def rule_integer_buffer_nondecimal(col, facts):
+    """TBL-size (integer, non-decimal): wherever a non-decimal radix can be compiled in (features power-of-two or
+    radix), buffer_size_const must return the non-decimal FORMATTED_SIZE for radix != 10.  Selecting on the
+    wrong cargo feature makes radix 2 / 4 / 8 under `power-of-two` use the decimal size (u64: 20 bytes, octal
+    u64::MAX needs 22)."""
+    if not ("power-of-two" in facts.config or "radix" in facts.config):
+        return
+    from rules.core import enum_paths, resolve_env
+    R = "TBL-size"
+    f = facts.fn("lexical_write_integer::options::Options::buffer_size_const")
+    rets = {i for i, b in enumerate(f.blocks) if f.live(i) and b["t"]["k"] == "return"}
+    n = bad = 0
+    for t, atoms, env in enum_paths(f, 0, rets, want_env=True, resolve_atoms=True):
+        nondec = False
+        for a, p in atoms:
+            a = strip_casts(a)
+            if a[0] == "bin" and a[1] in ("Eq", "Ne") and strip_casts(a[3]) == ("k", 10) and any(last_seg(c[1]) == "radix" for c in expr_calls(a)):
+                nondec = nondec or ((a[1] == "Eq") != p)
+        if not nondec:
+            continue
+        n += 1
+        r = env.get(0)
+        e = resolve_env(r[1], env) if r and r[0] == "expr" else None
+        names = {last_seg(k[1]) for k in expr_consts(e)} if e is not None else set()
+        if "FORMATTED_SIZE" not in names:
+            bad += 1
+    col.check(R, "integer:buffer_size_const:non-decimal-size", n >= 1 and bad == 0,
+              "%d path(s) for radix != 10 found, %d of them not returning FORMATTED_SIZE: in this feature set a non-decimal radix is sized with FORMATTED_SIZE_DECIMAL (u64 radix 2: 20 bytes for 64 digits)" % (n, bad), f.loc())
